@@ -8,7 +8,8 @@ for i in ids:
     mp = f'/verif/seeded/{i}/meta.json'
     m = json.load(open(mp))
     checks = sorted(set([m['property']] + list(m.get('checks_run', {}).keys()) + m.get('caught_by', [])))
-    r = subprocess.run(['/verif/tools/seed/run.sh', f'/verif/seeded/{i}/patch.diff'] + checks, stdout=subprocess.PIPE, stderr=subprocess.STDOUT, text=True).stdout
+    runner = '/verif/tools/seed/run_lane.sh' if os.environ.get('SEED_REPO') else '/verif/tools/seed/run.sh'
+    r = subprocess.run([runner, f'/verif/seeded/{i}/patch.diff'] + checks, stdout=subprocess.PIPE, stderr=subprocess.STDOUT, text=True).stdout
     res = {}
     for line in r.splitlines():
         mm = re.match(r'(C\d\d) rc=(\d+) ?(.*)', line)
